@@ -31,5 +31,6 @@ Example C12_nonvacuous :
   read_stream 4 (fun p => match p with [7] => true | [1; 2] => true | _ => false end) [1; 7; 0; 2; 1; 2; 9; 0; 0]
   = ([[7]; [1; 2]], EReset 2)
   /\ read_stream 4 (fun _ => true) [130; 0; 1; 5] = ([[5]], EClean)   (* a non-minimal varint is skipped, not fatal *)
-  /\ read_stream 4 (fun _ => true) [3; 1] = ([], EReset 3).
+  /\ read_stream 4 (fun _ => true) [3; 1] = ([], EReset 3)
+  /\ read_stream 4 (fun _ => true) [171; 176] = ([], EClean).   (* a varint cut off by the end of the stream ends it politely *)
 Proof. vm_compute. repeat split. Qed.
